@@ -150,7 +150,7 @@ class PoolProp:
                    res_cap=rng.choice([None, None, 1, 2, 3]), factory=factory,
                    quota=rng.choice([1, 1, 2, 3]) if factory else None, wait_ready=rng.random() < 0.3, calls=calls,
                    none_inputs=rng.random() < 0.25, body_raises=rng.random() < 0.2,
-                   impatient=(tier != "cover" and rng.random() < 0.15), input_kind=rng.randrange(4))
+                   impatient=(tier != "cover" and rng.random() < 0.15), input_kind=rng.randrange(5))
 
     # ---- transition coverage: every reachable transition of the model for small configurations (harness/cover.py) -------
     cover_limit = 60000
